@@ -427,6 +427,10 @@ def run(repo, rep):
              'polled again, so neither a transport close (Evt17) nor later data overtakes them', 1)
     rep.rule('C05.G6', 'loop polls network, outgoing queue, timer in that order; one event popped and one action run per iteration', 1)
     check_maps(repo, model, rep)
+    for tname in ('PDU_TYPES', 'PDU_TO_EVENT'):
+        w = repo.table_writers('dulprovider', tname)
+        rep.check(not w, 'C05.G1' if tname == 'PDU_TYPES' else 'C05.G2', 'dulprovider:%s:constant-after-import' % tname,
+                  repo.module('dulprovider').relpath, 'no function re-binds or mutates the table', '; '.join(w))
     check_producers(repo, model, pm, rep)
     check_timer(repo, pm, rep)
     check_invariants(repo, model, rep)
